@@ -84,12 +84,12 @@ def edit_request(draw, routes=("lib", "cli")):
                 fields[f] = draw(st.sampled_from([{"op": "set", "value": True}, {"op": "set", "value": 1},
                                                   {"op": "clear"}]))
         elif f in TEXT_FIELDS:
-            if draw(st.integers(0, 3)) == 0:
+            if draw(st.sampled_from([True] + [False] * 3)):
                 fields[f] = {"op": "clear"}
             else:
                 fields[f] = {"op": "set", "value": draw(text(cli))}
         else:
-            if not cli and draw(st.integers(0, 3)) == 0:
+            if not cli and draw(st.sampled_from([True] + [False] * 3)):
                 fields[f] = {"op": "clear"}
             else:
                 lst = draw(url_list(cli))
